@@ -81,7 +81,12 @@ func main() {
 			}
 			rr := refage.OpenFile(f, x.Ref, C)
 			if !rr.Accepted || !bytes.Equal(rr.Plain, plain) {
-				panic(fmt.Sprintf("reference cannot open the file under test: %s %v", rr.Stage, rr.Err))
+				// The file the implementation wrote is not one the STREAM automaton accepts for this plaintext. If the
+				// implementation's own reader takes it, a payload outside the one canonical chunking is being accepted.
+				if res := lab.DecryptBytes(f, false, x.Id); res.OK() {
+					c.Fail("nonconforming-payload-accepted", fmt.Sprintf("mkfile.n%d", n), fmt.Sprintf("the payload written for %d bytes is rejected by the STREAM automaton (%s: %v) but accepted by the implementation's reader", n, rr.Stage, rr.Err), nil)
+				}
+				return nil, nil, nil, nil, nil, nil
 			}
 			h, no, pl, _ := refage.SplitFile(f)
 			return f, h, no, pl, refage.PayloadKey(rr.FileKey, rr.Nonce), plain
@@ -90,6 +95,9 @@ func main() {
 		// ------------------------------------------------ (a) chunk sequences vs automaton
 		c.Part("chunk-sequences")
 		_, _, _, payload, pkey, plain := mkfile(3*C + 5)
+		if payload == nil {
+			return
+		}
 		foreign := refage.PayloadKey(bytes.Repeat([]byte{7}, 16), bytes.Repeat([]byte{9}, 16))
 		piece := func(i int) []byte {
 			if i < 3 {
@@ -249,6 +257,9 @@ func main() {
 		}
 		for _, n := range sizes {
 			file, hdr, _, pl, _, pt := mkfile(n)
+			if file == nil {
+				continue
+			}
 			nearSeam := func(off int) bool { // off relative to start of file
 				rel := off - len(hdr)
 				if rel < 40 {
